@@ -85,8 +85,16 @@ def _cases(draw, tier):
     cursor = base
     feats = set()
     consts = {}
+    use_local = draw(st.booleans())
     for i in range(n):
         items.append({'t': 'label', 'name': labels[i]})
+        if use_local and draw(st.booleans()):
+            # the same local name and the same expression text in several regions
+            items.append({'t': 'data', 'd': '.2byte', 'vals': [['lab', '.loc'], ['bin', '+', ['lab', '.loc'], ['num', 1, 'dec']]]})
+            items.append({'t': 'data', 'd': '.byte', 'vals': [['num', i, 'dec']] * draw(st.integers(0, 3)) or [['num', 9, 'dec']]})
+            items.append({'t': 'label', 'name': '.loc'})
+            feats.add('same-local-label-in-several-regions')
+            cursor += 3
         kind = draw(st.sampled_from(['num', 'num', 'num', 'str', 'str', 'fill', 'zero', 'zerountil', 'bare']))
         if kind == 'num':
             d = draw(st.sampled_from(['.byte', '.2byte', '.4byte', '.8byte']))
